@@ -141,18 +141,25 @@ def check_property(prop, tier, seed, jobs=None, write=True):
         violations.append({"kind": "bounded-contract-breach", "check": b["check"], "what": b["what"],
                            "replay": b["replay"], "input_found": True})
     for r, o in refuted:
+        confirmed = o.get("confirmed") is True
+        what = (f"obligation {o['name']} of {r['item']} refuted by {o['solver']} ({r['file']}:{o['line']})")
+        if confirmed:
+            what += (f"; counterexample replayed on the real code: it "
+                     f"{'returned ' + str(o['real_code'].get('repr')) if o['real_code'].get('status') == 'returned' else 'raised ' + str(o['real_code'].get('exception'))}"
+                     f" on the decoded input, which breaks the clause")
         violations.append({"kind": "failed-obligation", "obligation": o["key"], "check": "obligation:" + o["key"],
-                           "what": f"obligation {o['name']} of {r['item']} refuted by {o['solver']} "
-                                   f"({r['file']}:{o['line']})",
-                           "solver_output": o["model"], "input_found": bool(concrete),
-                           "explained_by": concrete[0]["check"] if concrete else None})
+                           "what": what, "solver_output": o["model"],
+                           "counterexample": o.get("counterexample"), "real_code": o.get("real_code"),
+                           "replayed_on_real_code": confirmed,
+                           "input_found": bool(concrete) or confirmed,
+                           "explained_by": concrete[0]["check"] if concrete and not confirmed else None})
     shown = 0
     for v in violations:
         kf = next((k for k in known if matches(k, v)), None)
         if kf is not None:
             status["known"].append((kf, v))
             continue
-        if v["kind"] == "failed-obligation" and v["input_found"]:
+        if v["kind"] == "failed-obligation" and v["input_found"] and not v.get("replayed_on_real_code"):
             # the concrete breach found by the bounded run is the replay of this failure
             v["note"] = "failing input: see the bounded-contract-breach violation " + str(v["explained_by"])
         status["violations"].append(v)
